@@ -439,3 +439,65 @@ pub fn discr<D: InstructionData>(d: D) -> [u8; 8] {
     o.copy_from_slice(&v[..8]);
     o
 }
+
+// ---------------------------------------------------------------- Kamino pass-through
+/// Venue-side accounts of a Kamino bank.
+#[derive(Clone, Copy, Debug)]
+pub struct KaminoKeys {
+    pub market: Pubkey,
+    pub lma: Pubkey,
+    pub reserve: Pubkey,
+    pub obligation: Pubkey,
+    pub supply: Pubkey,
+    pub col_mint: Pubkey,
+    pub col_supply: Pubkey,
+}
+#[allow(clippy::too_many_arguments)]
+pub fn add_bank_kamino(group: Pubkey, admin: Pubkey, fee_payer: Pubkey, mint: Pubkey, seed: u64, reserve: Pubkey, obligation: Pubkey, token_program: Pubkey, cfg: marginfi::state::kamino::KaminoConfigCompact, rem: Vec<AccountMeta>) -> (Instruction, Pubkey) {
+    let bank = bank_pda(&group, &mint, seed);
+    let k = BankKeys::of(bank);
+    (
+        mk(
+            marginfi::accounts::LendingPoolAddBankKamino {
+                group, admin, fee_payer, bank_mint: mint, bank, integration_acc_1: reserve, integration_acc_2: obligation,
+                liquidity_vault_authority: k.lva, liquidity_vault: k.lv, insurance_vault_authority: k.iva, insurance_vault: k.iv, fee_vault_authority: k.fva, fee_vault: k.fv,
+                token_program, system_program: system_program::ID,
+            },
+            marginfi::instruction::LendingPoolAddBankKamino { bank_config: cfg, bank_seed: seed },
+            rem,
+        ),
+        bank,
+    )
+}
+#[allow(clippy::too_many_arguments)]
+pub fn kamino_deposit(group: Pubkey, acct: Pubkey, authority: Pubkey, bank: Pubkey, ta: Pubkey, mint: Pubkey, token_program: Pubkey, kk: &KaminoKeys, amount: u64) -> Instruction {
+    mk(
+        marginfi::accounts::KaminoDeposit {
+            group, marginfi_account: acct, authority, bank, signer_token_account: ta,
+            liquidity_vault_authority: pda(LIQUIDITY_VAULT_AUTHORITY_SEED, &bank), liquidity_vault: pda(LIQUIDITY_VAULT_SEED, &bank),
+            integration_acc_2: kk.obligation, lending_market: kk.market, lending_market_authority: kk.lma, integration_acc_1: kk.reserve, mint,
+            reserve_liquidity_supply: kk.supply, reserve_collateral_mint: kk.col_mint, reserve_destination_deposit_collateral: kk.col_supply,
+            obligation_farm_user_state: None, reserve_farm_state: None,
+            kamino_program: marginfi::constants::KAMINO_PROGRAM_ID, farms_program: marginfi::constants::FARMS_PROGRAM_ID,
+            collateral_token_program: spl_token::ID, liquidity_token_program: token_program, instruction_sysvar_account: sysvar::instructions::ID,
+        },
+        marginfi::instruction::KaminoDeposit { amount },
+        vec![],
+    )
+}
+#[allow(clippy::too_many_arguments)]
+pub fn kamino_withdraw(group: Pubkey, acct: Pubkey, authority: Pubkey, bank: Pubkey, ta: Pubkey, mint: Pubkey, token_program: Pubkey, kk: &KaminoKeys, amount: u64, all: Option<bool>, rem: Vec<AccountMeta>) -> Instruction {
+    mk(
+        marginfi::accounts::KaminoWithdraw {
+            group, marginfi_account: acct, authority, bank, destination_token_account: ta,
+            liquidity_vault_authority: pda(LIQUIDITY_VAULT_AUTHORITY_SEED, &bank), liquidity_vault: pda(LIQUIDITY_VAULT_SEED, &bank),
+            integration_acc_2: kk.obligation, lending_market: kk.market, lending_market_authority: kk.lma, integration_acc_1: kk.reserve, reserve_liquidity_mint: mint,
+            reserve_liquidity_supply: kk.supply, reserve_collateral_mint: kk.col_mint, reserve_source_collateral: kk.col_supply,
+            obligation_farm_user_state: None, reserve_farm_state: None,
+            kamino_program: marginfi::constants::KAMINO_PROGRAM_ID, farms_program: marginfi::constants::FARMS_PROGRAM_ID,
+            collateral_token_program: spl_token::ID, liquidity_token_program: token_program, instruction_sysvar_account: sysvar::instructions::ID,
+        },
+        marginfi::instruction::KaminoWithdraw { amount, withdraw_all: all },
+        rem,
+    )
+}
